@@ -14,7 +14,7 @@ confirm = C6.confirm
 
 
 def plan(tier, seed):
-    import vt.harness.cont as HC  # noqa
+    import vt.contactions as HC  # noqa
     k = 2 if tier == "quick" else 3
     parts = []
     for drv in ("h5", "ih5"):
